@@ -46,8 +46,11 @@ func c15BuildCheck(cs *vc15.Case) (module.Check, error) {
 	if err != nil {
 		return nil, err
 	}
-	nodes := append(cs.ConfigNodes(), cs.U2E.ConfigNode("user_to_email"), cs.Prep.ConfigNode("prepare_email"))
-	if err := mod.Init(config.NewMap(map[string]interface{}{}, config.Node{Children: nodes})); err != nil {
+	// the configuration block as text, read by the configuration parser (directives that have
+	// their default are left out in every combination)
+	block, _, _ := cs.ConfigBlock()
+	defer cs.ReleaseMem()
+	if err := mod.Init(config.NewMap(map[string]interface{}{}, block)); err != nil {
 		return nil, err
 	}
 	return mod.(module.Check), nil
@@ -210,7 +213,11 @@ func TestVerifC15Session(t *testing.T) {
 				out.Note("unparsable replay op: " + err.Error())
 				continue
 			}
-			cases = append(cases, cs)
+			// every session gets a check initialised anew; what an initialisation yields may differ
+			// from one to the next (defaults evaluated in map order): try the case several times
+			for i := 0; i < 8; i++ {
+				cases = append(cases, cs)
+			}
 		}
 		if len(cases) == 0 {
 			return
